@@ -517,7 +517,9 @@ func issueCase(run *vgen.Run, r *vgen.Rand) {
 	// signing time: around the bounds of the CA validity (so that [now, now+d] sticks out or just fits)
 	cands := []time.Time{h(0), h(-100), h(100).Add(-dur), h(100), h(-100).Add(-dur), h(-20), h(-50), h(100).Add(-dur)}
 	now := cands[timeSel].Add(time.Duration(delta) * time.Second)
-	pol := cppki.CAPolicy{Validity: dur, Certificate: ca.X, Signer: signer.Priv, CurrentTime: now}
+	force512 := r.Chance(1, 3)
+	pol := cppki.CAPolicy{Validity: dur, Certificate: ca.X, Signer: signer.Priv, CurrentTime: now,
+		ForceECDSAWithSHA512: force512}
 	var chain []*x509.Certificate
 	var cerr error
 	if pn, msg := vgen.Recover(func() { chain, cerr = pol.CreateChain(csr) }); pn {
@@ -540,6 +542,9 @@ func issueCase(run *vgen.Run, r *vgen.Rand) {
 	term := vgen.App("Renewal.CIssue", caT, vgen.N(a.KeyH(signer.Pub)), vgen.B(ecdsaSigner),
 		fmt.Sprintf("(%d)%%Z", a.T(now)), fmt.Sprintf("(%d)%%Z", int64(dur/time.Second)), qT, implT, vgen.B(same))
 	run.Tally(fmt.Sprintf("issue:ok=%v", cerr == nil))
+	if cerr == nil {
+		run.Tally(fmt.Sprintf("issue:force512=%v,alg=%v", force512, chain[0].SignatureAlgorithm))
+	}
 	run.Add("issue", term, term, true, map[string]any{"caMut": caMut, "signerKind": signerKind, "csrIA": csrIAKind,
 		"csrKey": csrKeyKind, "durH": durH, "now": a.T(now), "ok": cerr == nil})
 }
